@@ -410,6 +410,17 @@ class _rewrite_captured_vars(ast.NodeTransformer):
             or hasattr(rewritten_call.func.value, "_fields")
         ):
             rewritten_call.func = old_func
+            if isinstance(old_func, ast.Attribute):
+                # A method of a captured value (`prefix.upper()`): the value is frozen like any
+                # other captured value, the method stays a method call on it. Functions of
+                # modules and classes (`math.sqrt`) keep their name.
+                receiver = self.visit(copy.deepcopy(old_func.value))
+                if isinstance(receiver, ast.Constant) and not isinstance(
+                    receiver.value, (ModuleType, type)
+                ):
+                    rewritten_call.func = ast.Attribute(
+                        value=receiver, attr=old_func.attr, ctx=ast.Load()
+                    )
 
         return rewritten_call
 
